@@ -6,6 +6,7 @@
 #define CAT(a, b) CAT_(a, b)
 typedef struct CAT(etl_static_vector_int_, VF_N) V;
 typedef struct CAT(etl_stack_int_etl_static_vector_int_, VF_N) S;
+typedef struct CAT(etl_static_vector_double_, VF_N) VD;
 typedef struct { unsigned long n; int a[N + 1]; } view_t;
 
 #if VF_N > 0
@@ -155,6 +156,26 @@ void h_erase_value(void) { ARB(v); VF_INPUT(int, x); VF_INPUT_BOOL(pred); view_t
   unsigned long r = pred ? v_erase_if(&v) : v_erase_value(&v, &x);
   VF_ASSERT(WF(v) && view_eq(view_of(&v), e), "erase(c,value)/erase_if(c,pred): exactly the non-matching elements survive, in their original order");
   VF_ASSERT(r == o.n - e.n, "erase/erase_if return the number of removed elements"); VF_REACH(); }
+
+/*@GROUP name=erase_hetero props=C01,C02 kind=K unwind=9 cost=2 when=(VF_N>0)*(VF_N<=8)@*/
+void h_erase_hetero(void) { ARB(v); VF_INPUT(long long, xl); VF_INPUT(unsigned, xu); VF_INPUT_BOOL(uns); view_t o = view_of(&v); view_t e; e.n = 0;
+  for (int i = 0; i < N; ++i) if ((unsigned long)i < o.n) { _Bool m = uns ? (unsigned)o.a[i] == xu : (long long)o.a[i] == xl; if (!m) { e.a[e.n] = o.a[i]; ++e.n; } }
+  unsigned long r = uns ? v_erase_value_u(&v, &xu) : v_erase_value_ll(&v, &xl);
+  VF_ASSERT(WF(v) && view_eq(view_of(&v), e), "erase(c, value of another integer type): exactly the elements with e == value (usual arithmetic conversions, no narrowing of the value) are removed");
+  VF_ASSERT(r == o.n - e.n, "erase returns the number of removed elements"); VF_REACH(); }
+/*@GROUP name=erase_hetero_d props=C01,C02 kind=K unwind=9 cost=4 when=(VF_N>0)*(VF_N<=8) tier=thorough timeout=1500@*/
+void h_erase_hetero_d(void) { ARB(v); VF_INPUT(double, xd); view_t o = view_of(&v); view_t e; e.n = 0;
+  for (int i = 0; i < N; ++i) if ((unsigned long)i < o.n) { if (!((double)o.a[i] == xd)) { e.a[e.n] = o.a[i]; ++e.n; } }
+  unsigned long r = v_erase_value_d(&v, &xd);
+  VF_ASSERT(WF(v) && view_eq(view_of(&v), e), "erase(c, double): exactly the elements with (double)e == value are removed");
+  VF_ASSERT(r == o.n - e.n, "erase returns the number of removed elements"); VF_REACH(); }
+
+/*@GROUP name=float_elements props=C01,C02 kind=K unwind=9 cost=2 when=(VF_N>0)*(VF_N<=4)@*/
+void h_float_elements(void) { VF_INPUT(VD, a); VF_INPUT(VD, b); __CPROVER_assume(a.b0._size <= N && b.b0._size <= N);
+  const double *pa = (const double *)&a, *pb = (const double *)&b; unsigned long na = a.b0._size, nb = b.b0._size;
+  _Bool eq = na == nb; for (int i = 0; i < N; ++i) if ((unsigned long)i < na && (unsigned long)i < nb && !(pa[i] == pb[i])) eq = 0;
+  VF_ASSERT(vd_eq(&a, &b) == eq && vd_ne(&a, &b) == !eq, "static_vector<double> ==/!=: element-wise VALUE equality (+0 == -0, NaN != NaN), at run time as at compile time");
+  VF_REACH(); }
 
 /*@GROUP name=access props=C01,C02,C05 kind=K unwind=9 when=(VF_N>0)*(VF_N<=8)@*/
 void h_access(void) { ARB(v); VF_INPUT(unsigned char, i); view_t o = view_of(&v);
